@@ -30,17 +30,38 @@ def array_rules(prog, chk, rid):
                 chk.bad(rid, f, "reserve-allocation-count", where, "reserve() must allocate exactly one new block, found %d" % len(news))
                 continue
             sz = q.no_casts(C.norm(f, f.nodes[news[0]]["asize"], {}, defs))
-            if re.match(r"^\(sizeof\(.+\) \* this->_capacity\)$", sz) and ("sizeof(%s)" % T) in sz:
-                chk.ok(rid, f, "new block sized sizeof(T) * _capacity", f.where(news[0]), sz)
+            # by evaluation: whatever the statements look like, at the allocation the byte count is (element size) x (the value _capacity
+            # holds then), and that capacity covers the request
+            prm = f.params[0]["n"]
+            unit = set()
+            why = None
+            n_ev = 0
+            for sz_, cap_, beg_ in ((5, 0, 0), (5, 4, 1), (8, 7, 1), (9, 3, 1), (1, 0, 0), (4, 4, 0), (100, 7, 1)):
+                seen_, end_, fv_ = fin.walk_vals(f, f.entry, {prm: sz_, "this->_capacity": cap_, "this->_begin.item": beg_, "this->_end.item": beg_}, stop_at=news[0])
+                if end_ != "stop":
+                    continue
+                n_ev += 1
+                a_ = fin.eval_expr(f, f.nodes[news[0]]["asize"], fv_)
+                c_ = fv_.get("this->_capacity")
+                if a_ is None or c_ is None:
+                    why = "the allocation size or the capacity is not determined by (size, _capacity) for size=%d, _capacity=%d" % (sz_, cap_)
+                    break
+                if c_ < sz_:
+                    why = "for reserve(%d) on capacity %d the block is allocated while _capacity is %d" % (sz_, cap_, c_)
+                    break
+                if c_ == 0 or a_ % c_:
+                    why = "for reserve(%d) on capacity %d the block has %d bytes for a capacity of %d" % (sz_, cap_, a_, c_)
+                    break
+                unit.add(a_ // c_)
+            if why is None and (len(unit) != 1 or not n_ev):
+                why = "the block size is not a fixed element size times _capacity (%s)" % sorted(unit)
+            if why is None:
+                chk.ok(rid, f, "new block sized sizeof(T) * _capacity", f.where(news[0]), sz, evals=n_ev)
+                chk.ok(rid, f, "_capacity raised to the requested size", where, "evaluated for %d (size, capacity) pairs" % n_ev, evals=n_ev)
             else:
                 chk.bad(rid, f, "reserve-allocation-size", f.where(news[0]),
-                        "the new block has %s bytes; it must hold _capacity elements (sizeof(T) * _capacity)" % sz)
-            # _capacity >= size on the allocating path: `if(size > _capacity) _capacity = size`
+                        "%s; the new block must hold _capacity elements (sizeof(T) * _capacity) and _capacity must cover the request" % why, evals=n_ev)
             st = C.nstores(f)
-            if any(l == "this->_capacity" and r == f.params[0]["n"] for _s, l, r in st):
-                chk.ok(rid, f, "_capacity raised to the requested size", where, "store _capacity = size present")
-            else:
-                chk.bad(rid, f, "reserve-capacity-not-raised", where, "reserve(size) allocates without raising _capacity to size")
             pn = C.placement_news(f)
             dt = C.dtor_events(f)
             ok_pair = False
@@ -261,7 +282,7 @@ def alias_rules(prog, chk, rid):
             P = [p for p in f.params if re.match(r"^const List<.*> &$", p["t"])][0]
             grow = [i for i in q.calls(f) if _this_call(f, i, "insert") or _this_call(f, i, "append")]
             inloop = [g for g in grow if C.loop_blocks(f, g)]
-            guard = any(re.search(r"this (==|!=) &%s\b|&%s (==|!=) this" % (P["n"], P["n"]), q.no_casts(f.r(b["cond"]))) for b in f.blocks.values() if b.get("cond") is not None)
+            guard = bool(fin.alias_guard_edges(f, P["n"]))
             walks = any(re.search(r"\b%s\._begin\.item" % re.escape(P["n"]), f.r(init)) for dl in q.local_defs(f).values() for kind, _n, init in dl if init is not None)
             if inloop and walks and not guard:
                 chk.bad(rid, f, "walks-argument-while-growing-self:" + P["n"], f.where(inloop[0]),
